@@ -19,7 +19,9 @@ def build_initializer_lists(values: npt.NDArray) -> str:
     """Build list of values."""
     arr = "["
     if len(values.shape) == 1:
-        return "[" + ", ".join(str(v) for v in values) + "]"
+        # NOTE: str() of a numpy scalar depends on numpy's global print options
+        # (legacy modes print 12 digits), str() of the Python scalar does not
+        return "[" + ", ".join(str(v.item()) for v in values) + "]"
     elif len(values.shape) > 1:
         arr += ",\n".join(build_initializer_lists(v) for v in values)
     arr += "]"
